@@ -83,6 +83,12 @@ func verifC25Decompress(data []byte) ([]byte, error) {
 	return out, nil
 }
 
+// verifSchedWindow(n): engine API (engine/sym/intr_C25b.go), natively nothing. n >= 0: from here
+// on a running goroutine can lose the processor at a synchronisation operation, to any other
+// runnable goroutine, up to n times (whatever the entry's configuration says; when it blocks, the
+// first runnable goroutine continues as before); -1: back to the entry's configuration.
+func verifSchedWindow(n int) {}
+
 func verifC25MkdirAll(path string, perm os.FileMode) error { return nil }
 func verifC25Stat(name string) (os.FileInfo, error)       { return nil, os.ErrNotExist }
 
@@ -239,6 +245,7 @@ type verifC25World struct {
 
 	clusterHWM uint64 // largest HWM update received from the cluster: other leaders delivered everything <= it
 
+	window    int  // >= 0: a burst and its snapshot sync run with every order of the runnable goroutines and up to so many preemptions
 	burst     bool // hand() does not wait for the service to come to rest (the next stimulus races with it)
 	confirmed bool // this incarnation of the service has had a transmission accepted or an HWM update from the cluster
 
@@ -249,7 +256,7 @@ type verifC25World struct {
 
 func verifNewC25World(batchSz int) *verifC25World {
 	verifResetModel()
-	w := &verifC25World{batchSz: batchSz, curEntry: -1}
+	w := &verifC25World{batchSz: batchSz, curEntry: -1, window: -1}
 	if verifSymbolic() {
 		w.dir = "/verif-c25"
 	} else {
@@ -288,11 +295,29 @@ func (w *verifC25World) boot() {
 	w.settle()
 }
 
+// stopService stops the service (the node stops). Stop leaves the batcher's goroutine behind; it
+// is ended here - if it is waiting to pass a batch on to the main loop that no longer exists, the
+// batch (in memory only) is taken from it first.
+func (w *verifC25World) stopService() {
+	w.svc.Stop()
+	for i := 0; i < 4; i++ {
+		verifSettle()
+		select {
+		case r := <-w.svc.batcher.C:
+			r.Close()
+		default:
+		}
+	}
+	w.svc.batcher.Close()
+	w.svc = nil
+}
+
 func (w *verifC25World) finish() {
+	if w.window >= 0 {
+		verifSchedWindow(-1)
+	}
 	if w.svc != nil {
-		w.svc.Stop()
-		w.svc.batcher.Close() // Stop leaves the batcher's goroutine behind
-		w.svc = nil
+		w.stopService()
 	}
 	verifSettle()
 	if !verifSymbolic() {
@@ -498,12 +523,25 @@ func (w *verifC25World) setLeader(on bool) {
 func (w *verifC25World) snapshotSync() {
 	ch := make(chan struct{})
 	w.clstr.snapCh <- ch
-	w.settle()
+	// like rsync.SyncChannels.Sync: wait for the answer, at most one second (store.fsmSnapshot)
 	answered := false
+	limit := time.NewTimer(time.Second)
 	select {
 	case <-ch:
 		answered = true
-	default:
+	case <-limit.C:
+	}
+	limit.Stop()
+	// cdc/DESIGN.md, Snapshot Synchronization: "This ensures all committed changes are safely in
+	// the BoltDB FIFO before any Raft log truncation occurs" - read at the very moment the answer
+	// arrives (the store goes on to snapshot and truncate), not after the service came to rest
+	var durable []int64
+	if answered {
+		durable = w.durableRows()
+	}
+	w.settle()
+	if w.window >= 0 {
+		verifSchedWindow(-1)
 	}
 	verifAssert("C25-snapshot-sync-answered", answered)
 	verifReach("snapshot-sync")
@@ -511,10 +549,8 @@ func (w *verifC25World) snapshotSync() {
 	for _, g := range w.groups {
 		g.synced = true
 	}
-	// cdc/DESIGN.md, Snapshot Synchronization: "This ensures all committed changes are safely in
-	// the BoltDB FIFO before any Raft log truncation occurs" - unless they were delivered (and
-	// pruned) already, or an HWM update from the cluster says that another leader delivered them
-	durable := w.durableRows()
+	// what is not in the disk queue was delivered (and pruned) already, or an HWM update from the
+	// cluster says that another leader delivered it
 	for _, g := range w.groups {
 		if g.delivered || w.covered(g.index) {
 			continue
@@ -565,9 +601,7 @@ func (w *verifC25World) durableRows() []int64 {
 // again (same indexes, same groups).
 func (w *verifC25World) restart() {
 	verifReach("restart")
-	w.svc.Stop()
-	w.svc.batcher.Close() // Stop leaves the batcher's goroutine behind
-	w.svc = nil
+	w.stopService()
 	w.restarted = true
 	w.curEntry = -1
 	for _, g := range w.groups {
@@ -684,12 +718,16 @@ func (w *verifC25World) step(i int, ops []int) bool {
 		// store.fsmApply hands over the groups of one or two log entries and goes on; the next
 		// thing the store does is a snapshot: the sync request reaches the service while groups
 		// may still be in the hand-off channel
-		n := 2 + verifChoice(verifName("burst", i), 1+verifTier())
+		n := 2 + verifChoice(verifName("burst", i), 2+verifTier())
+		if w.window >= 0 {
+			verifSchedWindow(w.window)
+		}
 		w.burst = true
 		for k := 0; k < n; k++ {
 			more := k > 0 && verifChoice(verifName("burstmore", 10*i+k), 2) == 1
 			if !w.feed(more) {
 				w.burst = false
+				w.settle()
 				return false
 			}
 		}
@@ -803,17 +841,19 @@ func VerifC25bSnapshotRace() {
 		[]int{vC25Restart, vC25Feed, vC25TickBatch, vC25BurstSnapshot, vC25Leader})
 }
 
-// VerifC25bSnapshotRaceSchedules (thorough tier): burst and snapshot sync with EVERY order in
-// which the runnable goroutines can run and up to two preemptions (the processor is taken away
-// from a running goroutine at a synchronisation operation), besides every select choice; judged
-// by what the disk queue holds when the sync has been answered.
-func VerifC25bSnapshotRaceSchedules() {
+// VerifC25bSnapshotRacePreempt: burst and snapshot sync with preemptions: between the first
+// hand-over and the moment everything is at rest again after the sync, a running goroutine can
+// lose the processor at a synchronisation operation to any other runnable goroutine - once
+// (quick tier) or twice (thorough tier) -, besides every select choice. Judged by what the disk
+// queue holds when the sync has been answered.
+func VerifC25bSnapshotRacePreempt() {
 	verifPanicsAreViolations()
 	w := verifNewC25World(1 + verifChoice("batchSz", 2))
 	defer w.finish()
 	if verifChoice("startLeader", 2) == 1 {
 		w.setLeader(true)
 	}
+	w.window = 1 + verifTier()
 	w.step(0, []int{vC25BurstSnapshot})
 }
 
